@@ -6,17 +6,17 @@ Kept as data so that MANIFEST.json, the check driver and the evidence writer agr
 # --------------------------------------------------------------------------------------------- Verus units
 # unit name -> template under units/, rlimit, the functions whose entry must be reachable (vacuity twins)
 UNITS = {
-    "comm": dict(template="units/comm.vt.rs", rlimit=300, portfolio=4,
+    "comm": dict(template="units/comm.vt.rs", rlimit=300, portfolio=4, tops=["RawCommunicator::read_into", "maybe_poll", "Communicator::read", "poll"],
                  about="the poll()-driven exchange loop of communicate.rs (unix variant) against the exchange model"),
-    "spawn": dict(template="units/spawn.vt.rs", rlimit=400, portfolio=3,
+    "spawn": dict(template="units/spawn.vt.rs", rlimit=400, portfolio=3, tops=["Popen::create", "os_start", "do_exec", "Popen::setup_streams"],
                   about="Popen::create / os_start / setup_streams / do_exec / set_inheritable / make_pipe against the spawn world (descriptor sets, child image, launch-status pipe)"),
-    "builder": dict(template="units/builder.vt.rs", rlimit=300, portfolio=4,
+    "builder": dict(template="units/builder.vt.rs", rlimit=300, portfolio=4, tops=["Pipeline::popen", "Pipeline::capture", "Exec::capture", "Exec::popen"],
                     about="Exec builder methods and terminators, stream adapters and their drop glue, Pipeline (composition, popen loop, join, capture, communicate, stream_*) against the builder world (log of started stages)"),
-    "exec": dict(template="units/exec.vt.rs", rlimit=100,
+    "exec": dict(template="units/exec.vt.rs", rlimit=100, tops=["PrepExec::exec", "prep_exec"],
                  about="posix::prep_exec / PrepExec::new / exec / assemble_exe: which program paths are tried, in which order, with what buffer capacity"),
-    "quote": dict(template="units/quote.vt.rs", rlimit=50,
+    "quote": dict(template="units/quote.vt.rs", rlimit=50, tops=["Exec::display_escape"],
                   about="Exec::display_escape / nice_char: the result is one shell word for the string"),
-    "pstate": dict(template="units/pstate.vt.rs", rlimit=50,
+    "pstate": dict(template="units/pstate.vt.rs", rlimit=50, tops=["os_wait_timeout", "waitpid", "send_signal", "drop"],
                    about="the Popen child-state machine (waitpid/wait/wait_timeout/poll/terminate/kill/send_signal/Drop) against the one-child process model"),
 }
 
@@ -41,7 +41,7 @@ PROPS = {
     "C12": dict(units=["builder", "pstate"], kani=[], level="proof"),
     "C13": dict(units=["builder"], kani=[], level="proof"),
     "C14": dict(units=["builder"], kani=[], level="proof"),
-    "C16": dict(units=["builder"], kani=[], level="proof"),
+    "C16": dict(units=["builder"], kani=["r_exec_stdin_refuses", "r_exec_stdout_refuses", "r_exec_stderr_refuses", "r_exec_terminators_refuse_data", "w_exec_stdin_accepts"], level="proof"),
     "C08": dict(units=["spawn", "builder"], kani=["w_pipe", "w_set_inheritable"], level="proof"),
     "C09": dict(units=["pstate"], kani=["w_decode_exit_status", "w_waitpid"], level="proof"),
     "C10": dict(units=["pstate"], kani=["w_kill"], level="proof"),
@@ -139,6 +139,11 @@ KANI = {
     "w_make_standard_stream": dict(about="make_standard_stream: handle on fd 0/1/2 whose drop never closes the descriptor", tags=["C05"]),
     "w_set_inheritable": dict(about="set_inheritable(f,false) = F_GETFD + F_SETFD(old|FD_CLOEXEC): descriptor becomes close-on-exec, other flags and other descriptors untouched; (f,true) is a no-op (R6 seam of the spawn unit)", tags=["C08", "C05"]),
     "b_split_path_b3": dict(about="split_path yields exactly the maximal non-empty colon-free runs of PATH, in order", bounded="PATH values of exactly 3 bytes over {':','a','b'}", tags=["C15"]),
+    "r_exec_stdin_refuses": dict(about="Exec::stdin never returns for any (current, new) pair outside the accepted cases -- incl. Merge and data on an already piped stdin (refusal direction of the set-once rule)", tags=["C16"]),
+    "r_exec_stdout_refuses": dict(about="Exec::stdout never returns outside (None, any) | (Pipe, Pipe)", tags=["C16"]),
+    "r_exec_stderr_refuses": dict(about="Exec::stderr never returns outside (None, any) | (Pipe, Pipe)", tags=["C16"]),
+    "r_exec_terminators_refuse_data": dict(about="check_no_stdin_data never returns while input data is pending (popen/join/stream_*)", tags=["C16"]),
+    "w_exec_stdin_accepts": dict(about="the accepted cases of Exec::stdin do return (vacuity guard of the refusal harnesses)", tags=["C16"]),
     "w_os_to_cstring_b4": dict(about="os_to_cstring: NUL => EINVAL, else bytes verbatim", bounded="strings of at most 4 bytes", tags=["C06"]),
 }
 KANI_TRUST = [
